@@ -442,7 +442,7 @@ class Gen:
                 else:
                     pts.append(self.interior_point(poly))
             entries.append([self.num(lo, hi, 0), pts])
-        if r.random() < 0.15:
+        if r.random() < 0.3:
             entries.append([self.num(lo, hi, 0)])                # a value without points after listed points
         return entries
 
